@@ -8,6 +8,7 @@ def run(ctx):
     _dr.rule_parsed_fields_used(ctx, "R01.9", ("gds21::read::",), 30)
     gr.rule_codec_agreement(ctx, g, "R01.1")
     gr.rule_field_diagonal(ctx, g, "R01.2")
+    gr.rule_repeatable_records(ctx, g, "R01.10")
     # packed STRANS flag word: both sides place each flag on the manual's bit, hence on the same bit
     gr.rule_strans_bits_writer(ctx, g, "R01.2w")
     gr.rule_emission_purity(ctx, g, "R01.6")
